@@ -284,6 +284,17 @@ def execute(case):
             for v, (t, how) in finish.items():
                 if v != 'STOP' and t > ts + 1e-9:
                     res.fail('C12.stop_data_last', f"run {v!r} ended at {t}, stop_data started at {ts}")
+    if not generous:
+        # the time-out cut the clean-up short: queued events may be lost, but a run that was started
+        # ends with exactly one result, the output returns to 0 and nothing goes on afterwards
+        for t, v in starts:
+            if len(results.get(v, [])) != 1:
+                res.fail('C12.started_run_without_result', f"run {v!r} was started at {t} but has "
+                         f"{len(results.get(v, []))} results (stop_timeout {case['stop_timeout']})")
+        if info['final_output'] != 0:
+            res.fail('C12.output_not_zero', f"output {info['final_output']} after the end (tight stop_timeout)")
+        if info['late']:
+            res.fail('C12.activity_after_stop', f"{info['late'][:3]}")
     if not case['stop_data'] and 'STOP' in started:
         res.fail('C12.invented_stop_data', "a stop_data run without stop_data")
 
